@@ -335,7 +335,9 @@ def rule_filter(ctx):
             v = k(e.args[0]) if e.args else ""
             what = peel_refs(e.node["recv"]).get("name", "?")
             res.instance("%s : `%s` receives %s" % (key, what, v[:40]))
-            if "loopvar:" in v:
+            t = as_term(e.args[0]) if e.args else None
+            own = t is not None and (t.op.startswith("loopvar:") or (t.op == "index" and len(t.args) == 2 and as_term(t.args[1]) is not None and as_term(t.args[1]).op.startswith("loopvar:")))
+            if own:
                 res.ok()
             else:
                 res.violate("%s : pushed-value:%s" % (key, what), "`%s` receives `%s`, which is not an element of the current iteration" % (what, v[:60]), fn_loc(fn, e.node["ln"]))
@@ -394,5 +396,44 @@ def rule_columns(ctx):
     return res.finish(2)
 
 
+RAW_UNCHECKED = {"into_raw_vec", "as_slice_memory_order", "as_slice_memory_order_mut", "as_ptr", "as_mut_ptr", "into_raw_vec_and_offset"}
+
+
+def rule_layout(ctx):
+    res = RuleResult("R-C02-layout", "a dataset container's raw buffer is cut by row arithmetic only after a row-major (standard layout) check of that container")
+    F = ctx.facts()
+    fns = [f for f in F.all_fns() if f["d"]["krate"] == "linfa" and fn_file(f).startswith("src/dataset/")]
+    for fn in fns:
+        c = fn["crate"]
+        r = Render(c)
+        key = fn_key(fn)
+        tr = None
+        for n in walk(fn["body"]):
+            if n.get("k") != "MethodCall" or n["name"] not in RAW_UNCHECKED:
+                continue
+            recv = peel_refs(n["recv"])
+            if recv.get("k") != "Field" or recv["name"] not in ("records", "targets"):
+                continue
+            cont = recv["name"]
+            inst = "%s : raw buffer of `%s` via %s" % (key, cont, n["name"])
+            res.instance(inst)
+            if tr is None:
+                tr = Tracer(fn).run()
+            # a diverging assertion `self.<cont>.is_standard_layout()` earlier in the function
+            ok = False
+            for m in walk(fn["body"]):
+                if m.get("k") == "If" and m["ln"] <= n["ln"]:
+                    cond = r.e(m["c"])
+                    diverges = any(x.get("k") == "Call" and (c.dfn(strip(x["f"]).get("def")) or {}).get("name") in ("panic", "panic_fmt", "panic_display", "begin_panic", "assert_failed") for x in walk(m["then"]))
+                    if diverges and ("!self.%s.is_standard_layout()" % cont) in cond.replace(" ", ""):
+                        ok = True
+            if ok:
+                res.ok()
+                res.sample({"site": inst, "guard": "assert!(self.%s.is_standard_layout())" % cont})
+            else:
+                res.violate("%s : raw-buffer-without-layout-check:%s" % (key, cont), "the raw buffer of `%s` is taken with `%s` (which accepts any contiguous layout) without a dominating `is_standard_layout()` assertion: for column-major or reversed data the row arithmetic that follows tears samples apart" % (cont, n["name"]), fn_loc(fn, n["ln"]))
+    return res.finish(2)
+
+
 def rules(tier):
-    return [rule_align, rule_filter, rule_columns]
+    return [rule_align, rule_filter, rule_columns, rule_layout]
